@@ -23,6 +23,15 @@ type scenario struct {
 	Cmd   func(k *Walker) []string
 }
 
+// scenarioFollow (C15): a command issued after the interrupted one by a later process that carries the SAME process id
+// (ids are reused) and writes the same file with shorter content.
+var scenarioFollow = map[string][]string{
+	"switch-long-then-short-same-pid": {"switch", "main"},
+	"config-long-then-short-same-pid": {"config", "user.name", "N"},
+	"rm-after-add-many-same-pid":      {"rm", "dir", "a.txt", "dir.c"},
+	"branch-hash-then-reset-same-pid": {"reset", "--soft", "HEAD@{1}"},
+}
+
 func commitBase(k *Walker) {
 	w := k.W
 	w.Write("a.txt", []byte("a1\n"))
@@ -163,6 +172,20 @@ func scenarioCorpus() []scenario {
 			k.W.Write("n.txt", []byte("n\n"))
 			k.W.Goit("add", "a.txt", "n.txt")
 		}, fixed("restore", "--staged", "a.txt", "n.txt")},
+		{"switch-long-then-short-same-pid", func(k *Walker) {
+			k.Init()
+			commitBase(k)
+			k.W.Goit("branch", "a-much-longer-branch-name-than-main")
+		}, fixed("switch", "a-much-longer-branch-name-than-main")},
+		{"config-long-then-short-same-pid", func(k *Walker) { k.Init() }, fixed("config", "user.name", "A Rather Long Name "+strings.Repeat("x", 150))},
+		{"rm-after-add-many-same-pid", func(k *Walker) {
+			k.Init()
+			commitBase(k)
+			for i := 0; i < 12; i++ {
+				k.W.Write(fmt.Sprintf("more/file-number-%02d.txt", i), []byte("m\n"))
+			}
+		}, fixed("add", "more")},
+		{"branch-hash-then-reset-same-pid", func(k *Walker) { k.Init(); twoCommits(k) }, fixed("reset", "--soft", "HEAD@{1}")},
 		{"update-ref", func(k *Walker) {
 			k.Init()
 			twoCommits(k)
@@ -197,6 +220,18 @@ func readOnlyScenarios() []scenario {
 	}
 	headID := func(k *Walker) string { return k.W.State().Repo().HeadCommit() }
 	return []scenario{
+		{"config-local-is-a-symlink", func(k *Walker) {
+			k.Init()
+			b := k.W.State().GoitFiles()["config"]
+			k.W.Edit("rm", ".goit/config", nil)
+			k.W.Write("../home/dotfiles/goit-local", b)
+			k.W.Symlink(".goit/config", "../../home/dotfiles/goit-local")
+		}, fixed("config", "user.name", "Through A Link")},
+		{"config-global-is-a-symlink", func(k *Walker) {
+			k.Init()
+			k.W.Write("../home/dotfiles/goit-global", []byte("[user]\n\tname = G\n"))
+			k.W.Symlink("../home/.goitconfig", "dotfiles/goit-global")
+		}, fixed("config", "--global", "user.email", "g@example.org")},
 		{"ro-status", dirty, fixed("status")},
 		{"ro-status-fresh", func(k *Walker) { k.Init(); k.W.Write("a.txt", []byte("a\n")); k.W.Goit("add", "a.txt") }, fixed("status")},
 		{"ro-log", dirty, fixed("log")},
@@ -299,7 +334,7 @@ func runFaults(c *core.Ctx, w *core.World, name string, argv []string, randomHis
 	now := "1700000000"
 	runVFS := func(fault string) *sandbox.Result {
 		os.Remove(oplogPath)
-		env := map[string]string{"VERIF_OPLOG": oplogPath, "VERIF_NOW": now}
+		env := map[string]string{"VERIF_OPLOG": oplogPath, "VERIF_NOW": now, "VERIF_PID": "4242"}
 		if fault != "" {
 			env["VERIF_FAULT"] = fault
 		}
@@ -458,6 +493,31 @@ func runFaults(c *core.Ctx, w *core.World, name string, argv []string, randomHis
 				} else if r.ok && res.Exit != 0 {
 					fail(fc, "C15.readonly-loads", "readonly-fails", trig+"|"+r.argv[0], "%s: afterwards `goit %s` exits %d (it works before and after the complete command): %s", where, strings.Join(r.argv, " "), res.Exit, clipS(firstLine(string(res.Stdout)+string(res.Stderr)), 160))
 				}
+			}
+			// (5) process ids are reused: what a later command does must not depend on whether its process carries the id of
+			// the one that was killed (whose temporary files may still lie around) or a fresh one
+			if follow := scenarioFollow[name]; follow != nil && !randomHist {
+				c.Oracle("C15.followup-pid-independent")
+				runF := func(pid string) *sandbox.Result {
+					return w.SB.Run(c.GoitVFS, follow, sandbox.RunOpts{ExtraEnv: map[string]string{"VERIF_NOW": now, "VERIF_PID": pid}})
+				}
+				fr := runF("4242")
+				got := w.SB.Snapshot()
+				w.SB.Restore(sk)
+				rr := runF("777")
+				ref := w.SB.Snapshot()
+				c.Eval(2)
+				if cr, how := fr.Crashed(); cr {
+					fail(fc, "C15.followup-pid-independent", "followup-crashes", trig, "%s: afterwards `goit %s` run by a process with the same id crashes (%s)", where, strings.Join(follow, " "), how)
+				} else if d := decodedDiff(ref, got); d != "" || fr.Exit != rr.Exit {
+					fail(fc, "C15.followup-pid-independent", "followup-depends-on-pid", trig, "%s: afterwards `goit %s` gives another repository when its process has the id of the killed one (exit %d) than with a fresh id (exit %d): %s", where, strings.Join(follow, " "), fr.Exit, rr.Exit, clipS(d, 200))
+				}
+				for _, p := range got.Repo().Fsck(false) {
+					if fr.Exit == 0 {
+						fail(fc, "C15.followup-pid-independent", "followup-"+p.Oracle, trig, "%s: afterwards `goit %s` (same process id) exits 0 and leaves: %s", where, strings.Join(follow, " "), p.Msg)
+					}
+				}
+				w.SB.Restore(sk)
 			}
 			// (4) "still usable": the interrupted command issued again must not crash, and if it reports success the
 			// repository is connected (a leftover lock or temporary file must not turn a later store into a no-op)
